@@ -310,6 +310,65 @@ Proof.
   rewrite Hs. apply blocked_add; [exact Hb|]. exact (proj2 (dyn_split_spec _ _ _ E1)).
 Qed.
 
+(* ---- the SAT log: the sets decoded from the Sat answers of a stretch of the log (most recent first) *)
+Definition sats (lg : list (nat * event)) : list (list nat) :=
+  flat_map (fun p => match snd p with ESolve _ (Sat m) => [dyn_a2e (e_vars e) m] | _ => [] end) lg.
+Lemma sats_app l1 l2 : sats (l1 ++ l2) = sats l1 ++ sats l2.
+Proof. unfold sats. apply flat_map_app. Qed.
+
+Lemma k_solve_log a ps r ps' :
+  k_solve oracle e a ps = Done r ps' ->
+  exists ev, rlog ps' = ev :: rlog ps /\ sats [ev] = match r with Some X => [X] | None => [] end.
+Proof.
+  intros E. apply k_solve_inv in E. destruct E as [-> Ha]. eexists. split; [reflexivity|].
+  unfold sats. cbn [flat_map snd app]. destruct (answer_of oracle ps (a ++ e_assum e)); [| |destruct Ha]; subst r; reflexivity.
+Qed.
+Lemma k_discard_log k ps u ps' :
+  k_discard L af e k ps = Done u ps' -> exists ev, rlog ps' = ev :: rlog ps /\ sats [ev] = [].
+Proof.
+  unfold k_discard. intros E. apply bind_Done in E. destruct E as (sp & ps1 & E1 & E2).
+  apply opt_m_Done in E1. destruct E1 as [_ ->]. apply add_clause_Done in E2. subst ps'. eexists. split; reflexivity.
+Qed.
+
+(* ---- SAT calls: at most n more answers consumed, however the program ends *)
+Definition cle (n : nat) {A} (m : Prog.M A) : Prop :=
+  forall s, match m s with Done _ s' | Abort s' | Panic s' | OutOfFuel s' => calls s' <= calls s + n end.
+Lemma cle_ret {A} (a : A) : cle 0 (ret a).
+Proof. intros s. cbn. lia. Qed.
+Lemma cle_panic {A} : cle 0 (@panic A).
+Proof. intros s. cbn. lia. Qed.
+Lemma cle_bind {A B} i j (m : Prog.M A) (k : A -> Prog.M B) : cle i m -> (forall a, cle j (k a)) -> cle (i + j) (bind m k).
+Proof.
+  intros Hm Hk s. unfold bind. specialize (Hm s). destruct (m s) as [a s1|s1|s1|s1]; try lia.
+  specialize (Hk a s1). destruct (k a s1); lia.
+Qed.
+Lemma cle_weaken {A} i j (m : Prog.M A) : cle i m -> i <= j -> cle j m.
+Proof. intros H Hij s. specialize (H s). destruct (m s); lia. Qed.
+Lemma cle_opt_m {A} (o : option A) : cle 0 (opt_m o).
+Proof. destruct o; [apply cle_ret|apply cle_panic]. Qed.
+Lemma cle_add_clause c : cle 0 (add_clause c).
+Proof. intros s. cbn. lia. Qed.
+Lemma cle_k_solve a : cle 1 (k_solve oracle e a).
+Proof.
+  unfold k_solve. apply (cle_bind 1 0); [|intros r; apply cle_ret].
+  intros s. unfold Prog.solve. destruct (oracle (calls s) (rev (rclauses (sess s))) (a ++ e_assum e)); cbn; lia.
+Qed.
+Lemma cle_k_new_search k : cle 1 (k_new_search oracle e k).
+Proof. unfold k_new_search. apply (cle_bind 1 0); [apply cle_k_solve|intros r; apply cle_ret]. Qed.
+Lemma cle_k_discard k : cle 0 (k_discard L af e k).
+Proof. unfold k_discard. apply (cle_bind 0 0); [apply cle_opt_m|intros sp; apply cle_add_clause]. Qed.
+Definition cst (st : mstate) : nat := match st with MInit => 0 | _ => 1 end.
+Lemma cle_k_compute_next k : cle (cst (k_state k)) (k_compute_next oracle L af e k).
+Proof.
+  unfold k_compute_next. destruct (k_state k); cbn [cst].
+  - apply (cle_bind 0 1); [apply cle_k_discard|intros _; apply cle_k_new_search].
+  - apply (cle_bind 0 1); [apply cle_opt_m|]. intros sp. apply (cle_bind 0 1); [apply cle_add_clause|]. intros _.
+    apply (cle_bind 1 0); [apply cle_k_solve|intros r; apply cle_ret].
+  - apply cle_k_new_search.
+  - apply (cle_weaken 0); [apply cle_panic|lia].
+  - apply cle_ret.
+Qed.
+
 (* ---- ghost lists for the fuel bound: the sets that have been current (pairwise different complete
    extensions), the maximal sets reached (pairwise different preferred extensions) *)
 Definition cnt (k : dcomp) (Bs Ss Ps : list (list nat)) : Prop :=
@@ -348,19 +407,23 @@ Lemma new_search_step k ps Bs Ss Ps k' ps' :
   (forall S, In S Ss -> In S Bs) ->
   k_new_search oracle e k ps = Done k' ps' ->
   exists Ss', linv k' ps' Bs /\ cnt k' Bs Ss' Ps /\ (k_state k' = MIntermediate \/ k_state k' = MNone) /\
-              pot Ss' Ps (k_state k') = length Ss + length Ps + 1.
+              pot Ss' Ps (k_state k') = length Ss + length Ps + 1 /\
+              exists lg, rlog ps' = lg ++ rlog ps /\ Ss' = sats lg ++ Ss.
 Proof.
   intros Hs Hb Hd HS HsS HP HsP HSB E. unfold k_new_search in E. apply bind_Done in E. destruct E as (r & ps1 & E1 & E2).
   rewrite Hs in E1. change [negate (zlit g)] with ([] ++ [negate (zlit g)]) in E1.
   destruct (solve_step ps Bs [] [] r ps1 Hb is_in_nil E1) as [Hb1 Hr].
+  destruct (k_solve_log _ _ _ _ E1) as (ev & Hlg & Hsat).
   apply ret_Done in E2. destruct E2 as [<- <-]. destruct r as [X|].
-  - destruct Hr as (K1 & K2 & _ & K4). exists (X :: Ss). split; [|split; [|split; [left; reflexivity|]]].
+  - destruct Hr as (K1 & K2 & _ & K4). exists (X :: Ss). split; [|split; [|split; [left; reflexivity|split]]].
+    4:{ exists [ev]. rewrite Hsat. split; [exact Hlg|reflexivity]. }
     + unfold linv. cbn [k_with k_sel k_state k_cur]. auto 7.
     + unfold cnt. cbn [k_with k_state k_cur]. split; [intros S [<-|H']; auto|].
       split; [split; [|exact HsS]; intros T HT; apply not_incl_not_seteq, K4, HSB, HT|].
       split; [exact HP|]. split; [exact HsP|]. intros S [<-|H']; auto.
     + unfold pot. cbn [k_with k_state length]. lia.
-  - exists Ss. split; [|split; [|split; [right; reflexivity|]]].
+  - exists Ss. split; [|split; [|split; [right; reflexivity|split]]].
+    4:{ exists [ev]. rewrite Hsat. split; [exact Hlg|reflexivity]. }
     + unfold linv. cbn [k_with k_sel k_state k_cur].
       split; [exact Hs|]. split; [exact Hb1|]. split; [exact Hd|]. intros S HS'. apply Hr; [exact HS'|intros a []].
     + unfold cnt. cbn [k_with k_state]. auto.
@@ -379,7 +442,10 @@ Lemma k_compute_next_step k ps Bs Ss Ps k' ps' :
   linv k ps Bs -> cnt k Bs Ss Ps -> (k_state k = MMaximal -> In id (k_cur k)) ->
   k_compute_next oracle L af e k ps = Done k' ps' ->
   exists Bs' Ss' Ps', linv k' ps' Bs' /\ cnt k' Bs' Ss' Ps' /\ next_ok (k_state k) (k_state k') /\
-                      pot Ss' Ps' (k_state k') = pot Ss Ps (k_state k) + 1.
+                      pot Ss' Ps' (k_state k') = pot Ss Ps (k_state k) + 1 /\
+                      (exists lg, rlog ps' = lg ++ rlog ps /\
+                                  Ss' = sats lg ++ (match k_state k with MInit => [gr0] | _ => [] end) ++ Ss) /\
+                      (k_state k' = MMaximal -> k_cur k' = k_cur k) /\ (k_state k' <> MMaximal -> Ps' = Ps).
 Proof.
   intros (Hs & Hb & Hst) (HS & HsS & HP & HsP & Hc) Hmx E. unfold k_compute_next in E. destruct (k_state k) eqn:Est.
   - (* Maximal, contains id: block it again, search elsewhere *)
@@ -389,11 +455,14 @@ Proof.
     assert (Hd : dead ((Bs0 ++ [k_cur k]) ++ [k_cur k])).
     { pose proof (dead_has_id (k_cur k) (pr_adm F _ Hpr) (Hmx eq_refl)) as Hdc.
       apply dead_app; [apply dead_app|]; assumption. }
-    destruct (new_search_step k ps1 _ Ss Ps k' ps' Hs Hb1 Hd HS HsS) as (Ss' & Hl & Hc' & Hn & Hp); try assumption.
+    destruct (k_discard_log k ps u ps1 E1) as (ev0 & Hlg0 & Hsat0).
+    destruct (new_search_step k ps1 _ Ss Ps k' ps' Hs Hb1 Hd HS HsS) as (Ss' & Hl & Hc' & Hn & Hp & lg & Hlg & HSs'); try assumption.
     + intros P HP'. destruct (HP P HP') as [H1 H1']. split; [exact H1|apply in_or_app; left; exact H1'].
     + intros S HS'. apply in_or_app. left. apply Hc, HS'.
     + exists ((Bs0 ++ [k_cur k]) ++ [k_cur k]), Ss', Ps. split; [exact Hl|]. split; [exact Hc'|]. split; [exact Hn|].
-      rewrite Hp. unfold pot. lia.
+      split; [rewrite Hp; unfold pot; lia|]. split; [|split; [destruct Hn as [Hn|Hn]; rewrite Hn; discriminate|reflexivity]].
+      exists (lg ++ [ev0]). rewrite Hlg, Hlg0, <- app_assoc. split; [reflexivity|].
+      rewrite sats_app, Hsat0, app_nil_r. exact HSs'.
   - (* Intermediate: block the current set, look for a strictly larger one *)
     destruct Hst as (Hco & Hnd & Hnb & Hd).
     apply bind_Done in E. destruct E as ([ins outs] & ps1 & E1 & E2). apply opt_m_Done in E1. destruct E1 as [E1 ->].
@@ -402,6 +471,12 @@ Proof.
     rewrite Hs in E3. pose proof (blocked_add ps Bs (k_cur k) _ Hb Hbc) as Hb1.
     apply bind_Done in E3. destruct E3 as (r & ps3 & E3 & E4).
     destruct (solve_step _ _ ins (k_cur k) r ps3 Hb1 Hin E3) as [Hb2 Hr].
+    destruct (k_solve_log _ _ _ _ E3) as (ev & Hlg & Hsat).
+    assert (Hlog : exists lg, rlog ps3 = lg ++ rlog ps /\ sats lg = match r with Some X => [X] | None => [] end).
+    { exists [ev; (nsess ps, EClause (outs ++ [zlit g]))]. split; [rewrite Hlg; reflexivity|].
+      change [ev; (nsess ps, EClause (outs ++ [zlit g]))] with ([ev] ++ [(nsess ps, EClause (outs ++ [zlit g]))]).
+      rewrite sats_app, Hsat. unfold sats. cbn [flat_map snd app]. now rewrite app_nil_r. }
+    destruct Hlog as (lg & Hlg' & Hsat').
     apply ret_Done in E4. destruct E4 as [<- <-].
     assert (HSB : forall S, In S Ss -> In S (Bs ++ [k_cur k])).
     { intros S HS'. apply in_or_app. destruct (Hc S HS') as [H'| ->]; [left; exact H'|right; left; reflexivity]. }
@@ -409,7 +484,8 @@ Proof.
     { intros P HP'. destruct (HP P HP') as [H1 H1']. split; [exact H1|apply in_or_app; left; exact H1']. }
     destruct r as [X|].
     + destruct Hr as (K1 & K2 & K3 & K4). exists (Bs ++ [k_cur k]), (X :: Ss), Ps.
-      split; [|split; [|split; [left; reflexivity|]]].
+      split; [|split; [|split; [left; reflexivity|split; [|split; [|split; [discriminate|reflexivity]]]]]].
+      4:{ exists lg. rewrite Hsat'. split; [exact Hlg'|reflexivity]. }
       * unfold linv. cbn [k_with k_sel k_state k_cur]. split; [exact Hs|]. split; [exact Hb2|].
         split; [exact K1|]. split; [exact K2|]. split; [exact K4|].
         apply dead_app; [exact Hd|]. apply (dead_grown (k_cur k) X); [apply co_adm, Hco|apply co_adm, K1| |].
@@ -423,18 +499,20 @@ Proof.
       assert (Hpr : pr F (k_cur k)).
       { apply max_co_pr; [exact Hco|]. intros T HT Hi. destruct (Hr T HT Hi) as (B & HB & HTB). apply in_app_or in HB.
         destruct HB as [HB|[<-|[]]]; [|exact HTB]. exfalso. apply (Hnb B HB). exact (incl_tran Hi HTB). }
-      split; [|split; [|split; [right; reflexivity|]]].
+      split; [|split; [|split; [right; reflexivity|split; [|split; [|split; [reflexivity|intros Hx; exfalso; apply Hx; reflexivity]]]]]].
+      4:{ exists lg. rewrite Hsat'. split; [exact Hlg'|reflexivity]. }
       * unfold linv. cbn [k_with k_sel k_state k_cur]. split; [exact Hs|]. split; [exact Hb2|].
         exists Bs. auto.
       * unfold cnt. cbn [k_with k_state k_cur]. split; [exact HS|]. split; [exact HsS|]. split.
         { intros P [<-|HP']; [split; [exact Hpr|apply in_or_app; right; left; reflexivity]|apply HPB, HP']. }
         split; [split; [|exact HsP]; intros T HT; apply not_incl_not_seteq, Hnb, (HP T HT)|]. exact HSB.
       * unfold pot. cbn [k_with k_state length]. lia.
-  - destruct (new_search_step k ps Bs Ss Ps k' ps' Hs Hb Hst HS HsS HP HsP Hc E) as (Ss' & Hl & Hc' & Hn & Hp).
-    exists Bs, Ss', Ps. split; [exact Hl|]. split; [exact Hc'|]. split; [exact Hn|]. rewrite Hp. unfold pot. lia.
+  - destruct (new_search_step k ps Bs Ss Ps k' ps' Hs Hb Hst HS HsS HP HsP Hc E) as (Ss' & Hl & Hc' & Hn & Hp & lg & Hlg & HSs').
+    exists Bs, Ss', Ps. split; [exact Hl|]. split; [exact Hc'|]. split; [exact Hn|].
+    split; [rewrite Hp; unfold pot; lia|]. split; [exists lg; auto|]. split; [destruct Hn as [Hn|Hn]; rewrite Hn; discriminate|reflexivity].
   - discriminate E.
   - apply ret_Done in E. destruct E as [<- <-]. subst Bs. destruct Hc as [-> ->]. exists [], [gr0], [].
-    split; [|split; [|split; [reflexivity|reflexivity]]].
+    split; [|split; [|split; [reflexivity|split; [reflexivity|split; [exists []; split; reflexivity|split; [discriminate|reflexivity]]]]]].
     + unfold linv. cbn [k_with k_sel k_state k_cur]. split; [exact Hs|]. split; [exact Hb|].
       split; [exact (proj1 Hgr)|]. split; [exact (proj2 Hgr)|]. split; [intros B []|apply dead_nil].
     + unfold cnt. cbn [k_with k_state k_cur]. split; [intros S [<-|[]]; exact (proj1 Hgr)|].
@@ -464,51 +542,99 @@ Definition loop_post (result : bool) (ext : option (list nat)) : Prop :=
   (result = false /\ exists X, ext = Some X /\ pr F X /\ NoDup X /\ ~ In id X) \/
   (result = true /\ ext = None /\ forall P, pr F P -> In id P).
 
+Lemma pot_le k Bs Ss Ps : cnt k Bs Ss Ps -> pot Ss Ps (k_state k) <= pr_dyn_bound.
+Proof.
+  intros (HS & HsS & HP & HsP & _). pose proof (sepl_co_le Ss HS HsS).
+  assert (length Ps <= length (all_exts PR F)) by (apply sepl_pr_le; [intros P H'; apply HP, H'|exact HsP]).
+  unfold pot, pr_dyn_bound. destruct (k_state k); lia.
+Qed.
+
+(* what is known when the loop ends in state ps': the call account, and (when it returns) the decoded
+   Sat answers of the log since ps, in front of the sets that were current before *)
+Definition CB (k : dcomp) (ps : Prog.st) (Ss Ps : list (list nat)) (ps' : Prog.st) : Prop :=
+  calls ps' + pot Ss Ps (k_state k) + 1 <= calls ps + cst (k_state k) + pr_dyn_bound.
+Definition ini (st : mstate) : list (list nat) := match st with MInit => [gr0] | _ => [] end.
+Definition LOG (k : dcomp) (ps : Prog.st) (Ss : list (list nat)) (ps' : Prog.st) : Prop :=
+  exists lg, rlog ps' = lg ++ rlog ps /\
+    sepl (sats lg ++ ini (k_state k) ++ Ss) /\ forall S, In S (sats lg ++ ini (k_state k) ++ Ss) -> co F S.
+
 Lemma pr_loop_out fuel : forall k fm in_all missing ps Bs Ss Ps,
   linv k ps Bs -> cnt k Bs Ss Ps -> k_state k <> MNone -> (k_state k = MMaximal -> In id (k_cur k)) ->
   id < length missing ->
   match pr_loop oracle L fuel af e id k fm in_all missing ps with
-  | Done (_, result, _, _, ext) _ => loop_post result ext
-  | OutOfFuel _ => fuel + pot Ss Ps (k_state k) < pr_dyn_bound
-  | _ => True
+  | Done (_, result, _, _, ext) ps' => loop_post result ext /\ CB k ps Ss Ps ps' /\ LOG k ps Ss ps'
+  | OutOfFuel ps' => fuel + pot Ss Ps (k_state k) < pr_dyn_bound /\ CB k ps Ss Ps ps'
+  | Abort ps' | Panic ps' => CB k ps Ss Ps ps'
   end.
 Proof.
   induction fuel as [|f IH]; intros k fm in_all missing ps Bs Ss Ps Hl Hc Hnn Hmx Hlen; cbn [pr_loop].
-  - unfold out_of_fuel. cbn [Nat.add]. eapply pot_lt; eassumption.
-  - unfold bind at 1. pose proof (nof_k_compute_next k ps) as Hnof.
-    destruct (k_compute_next oracle L af e k ps) as [k1 ps1| | |] eqn:E1; try exact I; [|destruct Hnof].
-    destruct (k_compute_next_step k ps Bs Ss Ps k1 ps1 Hl Hc Hmx E1) as (Bs1 & Ss1 & Ps1 & Hl1 & Hc1 & Hn & Hp).
+  - unfold out_of_fuel. cbn [Nat.add]. pose proof (pot_lt k Bs Ss Ps Hc Hnn). split; [assumption|]. unfold CB. lia.
+  - unfold bind at 1. pose proof (nof_k_compute_next k ps) as Hnof. pose proof (cle_k_compute_next k ps) as Hcl.
+    pose proof (pot_lt k Bs Ss Ps Hc Hnn) as Hplt.
+    destruct (k_compute_next oracle L af e k ps) as [k1 ps1| | |] eqn:E1; cbv beta iota in Hcl, Hnof;
+      try (unfold CB; lia); try (destruct Hnof).
+    destruct (k_compute_next_step k ps Bs Ss Ps k1 ps1 Hl Hc Hmx E1) as (Bs1 & Ss1 & Ps1 & Hl1 & Hc1 & Hn & Hp & (lg1 & Hlg1 & HSs1) & Hcur1 & HPs1).
     pose proof Hl1 as (Hs1 & Hb1 & Hst1).
-    assert (Hrec : forall k2 fm2 ia2 ms2 ps2 Bs2 Ss2 Ps2,
-              linv k2 ps2 Bs2 -> cnt k2 Bs2 Ss2 Ps2 -> k_state k2 <> MNone ->
+    assert (Hcst1 : cst (k_state k1) = 1).
+    { destruct (k_state k); cbn [next_ok] in Hn; try contradiction; try (destruct Hn as [Hn|Hn]); rewrite Hn; reflexivity. }
+    fold (ini (k_state k)) in HSs1.
+    assert (Hini1 : ini (k_state k1) = []).
+    { unfold ini. destruct (k_state k1); try reflexivity. discriminate Hcst1. }
+    (* the account and the log, transported from (k1, ps1) to (k, ps) *)
+    assert (HCB : forall ps', CB k1 ps1 Ss1 Ps1 ps' -> CB k ps Ss Ps ps') by (intros ps'; unfold CB; lia).
+    assert (HLOG : forall ps', LOG k1 ps1 Ss1 ps' -> LOG k ps Ss ps').
+    { intros ps' (lg & A1 & A2 & A3). exists (lg ++ lg1). rewrite A1, Hlg1, <- app_assoc. split; [reflexivity|].
+      rewrite sats_app, <- app_assoc. rewrite Hini1, HSs1 in A2, A3. cbn [app] in A2, A3. auto. }
+    assert (Hrec : forall k2 fm2 ia2 ms2 ps2 Bs2,
+              linv k2 ps2 Bs2 -> cnt k2 Bs2 Ss1 Ps1 -> k_state k2 <> MNone ->
               (k_state k2 = MMaximal -> In id (k_cur k2)) -> id < length ms2 ->
-              pot Ss2 Ps2 (k_state k2) = pot Ss Ps (k_state k) + 1 ->
+              k_state k2 <> MInit -> pot Ss1 Ps1 (k_state k2) = pot Ss1 Ps1 (k_state k1) ->
+              calls ps2 <= calls ps1 -> rlog ps2 = (rlog ps2) -> (exists lg2, rlog ps2 = lg2 ++ rlog ps1 /\ sats lg2 = []) ->
               match pr_loop oracle L f af e id k2 fm2 ia2 ms2 ps2 with
-              | Done (_, result, _, _, ext) _ => loop_post result ext
-              | OutOfFuel _ => S f + pot Ss Ps (k_state k) < pr_dyn_bound
-              | _ => True
+              | Done (_, result, _, _, ext) ps' => loop_post result ext /\ CB k ps Ss Ps ps' /\ LOG k ps Ss ps'
+              | OutOfFuel ps' => S f + pot Ss Ps (k_state k) < pr_dyn_bound /\ CB k ps Ss Ps ps'
+              | Abort ps' | Panic ps' => CB k ps Ss Ps ps'
               end).
-    { intros k2 fm2 ia2 ms2 ps2 Bs2 Ss2 Ps2 A1 A2 A3 A4 A5 A6.
-      pose proof (IH k2 fm2 ia2 ms2 ps2 Bs2 Ss2 Ps2 A1 A2 A3 A4 A5) as G.
-      destruct (pr_loop oracle L f af e id k2 fm2 ia2 ms2 ps2) as [[[[[? ?] ?] ?] ?] ?| | |]; auto. lia. }
+    { intros k2 fm2 ia2 ms2 ps2 Bs2 A1 A2 A3 A4 A5 A6 A7 A8 _ (lg2 & A9 & A10).
+      pose proof (IH k2 fm2 ia2 ms2 ps2 Bs2 Ss1 Ps1 A1 A2 A3 A4 A5) as G.
+      assert (Hc2 : cst (k_state k2) = 1) by (destruct (k_state k2); try reflexivity; congruence).
+      assert (Hi2 : ini (k_state k2) = []) by (unfold ini; destruct (k_state k2); try reflexivity; congruence).
+      assert (T1 : forall ps', CB k2 ps2 Ss1 Ps1 ps' -> CB k ps Ss Ps ps').
+      { intros ps' Hx. apply HCB. unfold CB in *. rewrite Hc2, A7 in Hx. rewrite Hcst1. lia. }
+      assert (T2 : forall ps', LOG k2 ps2 Ss1 ps' -> LOG k ps Ss ps').
+      { intros ps' (lg & B1 & B2 & B3). apply HLOG. exists (lg ++ lg2). rewrite B1, A9, <- app_assoc. split; [reflexivity|].
+        rewrite sats_app, A10, app_nil_r, Hini1. rewrite Hi2 in B2, B3. auto. }
+      destruct (pr_loop oracle L f af e id k2 fm2 ia2 ms2 ps2) as [[[[[? ?] ?] ?] ?] ?| | |].
+      - destruct G as (G1 & G2 & G3). auto.
+      - auto.
+      - auto.
+      - destruct G as [G1 G2]. split; [|auto]. rewrite A7 in G1. lia. }
+    assert (Hself : exists lg2, rlog ps1 = lg2 ++ rlog ps1 /\ sats lg2 = []) by (exists []; split; reflexivity).
     destruct (k_state k1) eqn:Est1.
     + (* Maximal *)
       destruct Hst1 as (Bs0 & HBs & Hpr & Hnd & Hd0).
       rewrite (nth_bools_of _ _ _ Hlen).
       destruct (memb id (k_cur k1)) eqn:Em; cbn [negb].
-      * apply (Hrec k1 _ _ _ ps1 Bs1 Ss1 Ps1); auto; try (rewrite Est1; auto; discriminate).
+      * apply (Hrec k1 _ _ _ ps1 Bs1); auto; try (rewrite Est1; auto; discriminate).
         -- intros _. apply memb_spec, Em.
         -- destruct fm; [rewrite length_add_defeated; exact Hlen|].
            rewrite map_length, combine_length, length_add_defeated, length_bools_of. lia.
-      * unfold ret. left. split; [reflexivity|]. eexists. split; [reflexivity|]. split; [exact Hpr|]. split; [exact Hnd|].
-        apply memb_false, Em.
+      * unfold ret. split; [|split].
+        -- left. split; [reflexivity|]. eexists. split; [reflexivity|]. split; [exact Hpr|]. split; [exact Hnd|].
+           apply memb_false, Em.
+        -- apply HCB. unfold CB. pose proof (pot_lt k1 Bs1 Ss1 Ps1 Hc1 ltac:(rewrite Est1; discriminate)). rewrite Est1 in *. cbn [cst]. lia.
+        -- apply HLOG. exists []. split; [reflexivity|]. cbn [app sats flat_map]. rewrite Est1. cbn [ini app].
+           destruct Hc1 as (B1 & B2 & _). auto.
     + (* Intermediate *)
       destruct Hst1 as (Hco & Hnd & Hnb & Hd).
       destruct (memb id (k_cur k1)) eqn:Em.
-      * unfold bind at 1. pose proof (nof_k_discard k1 ps1) as Hnof'.
-        destruct (k_discard L af e k1 ps1) as [u ps2| | |] eqn:E2; try exact I; [|destruct Hnof'].
+      * unfold bind at 1. pose proof (nof_k_discard k1 ps1) as Hnof'. pose proof (cle_k_discard k1 ps1) as Hcl'.
+        pose proof (pot_lt k1 Bs1 Ss1 Ps1 Hc1 ltac:(rewrite Est1; discriminate)) as Hplt1. rewrite Est1 in Hplt1.
+        destruct (k_discard L af e k1 ps1) as [u ps2| | |] eqn:E2; cbv beta iota in Hcl', Hnof';
+          try (apply HCB; unfold CB; rewrite Est1; cbn [cst]; lia); try (destruct Hnof').
         pose proof (k_discard_step k1 ps1 Bs1 u ps2 Hs1 Hb1 E2) as Hb2.
-        apply (Hrec (k_with k1 (k_cur k1) MJustDiscarded) _ _ _ ps2 (Bs1 ++ [k_cur k1]) Ss1 Ps1).
+        destruct (k_discard_log k1 ps1 u ps2 E2) as (ev & Hev & Hsev).
+        apply (Hrec (k_with k1 (k_cur k1) MJustDiscarded) _ _ _ ps2 (Bs1 ++ [k_cur k1])).
         -- unfold linv. cbn [k_with k_sel k_state k_cur]. split; [exact Hs1|]. split; [exact Hb2|].
            apply dead_app; [exact Hd|]. apply dead_has_id; [apply co_adm, Hco|apply memb_spec, Em].
         -- destruct Hc1 as (A1 & A2 & A3 & A4 & A5). rewrite Est1 in A5. unfold cnt. cbn [k_with k_state].
@@ -519,16 +645,100 @@ Proof.
         -- cbn [k_with k_state]. discriminate.
         -- cbn [k_with k_state]. discriminate.
         -- rewrite length_add_defeated. exact Hlen.
-        -- cbn [k_with k_state]. rewrite <- Hp. reflexivity.
-      * apply (Hrec k1 _ _ _ ps1 Bs1 Ss1 Ps1); auto; try (rewrite Est1; auto; discriminate).
+        -- cbn [k_with k_state]. discriminate.
+        -- cbn [k_with k_state]. reflexivity.
+        -- lia.
+        -- reflexivity.
+        -- exists [ev]. auto.
+      * apply (Hrec k1 _ _ _ ps1 Bs1); auto; try (rewrite Est1; auto; discriminate).
         rewrite length_add_defeated. exact Hlen.
-    + apply (Hrec k1 _ _ _ ps1 Bs1 Ss1 Ps1); auto; rewrite Est1; auto; discriminate.
+    + apply (Hrec k1 _ _ _ ps1 Bs1); auto; try (rewrite Est1; auto; discriminate).
     + (* None: every preferred extension contains id *)
-      unfold ret. right. split; [reflexivity|]. split; [reflexivity|]. intros P HP.
-      destruct (in_dec Nat.eq_dec id P) as [Hi|Hn']; [exact Hi|exfalso].
-      destruct Hst1 as [Hd Hcov]. destruct (Hcov P (pr_co F P Hwf HP)) as (B & HB & HPB).
-      exact (Hd B P HB HP Hn' HPB).
-    + apply (Hrec k1 _ _ _ ps1 Bs1 Ss1 Ps1); auto; rewrite Est1; auto; discriminate.
+      unfold ret. split; [|split].
+      * right. split; [reflexivity|]. split; [reflexivity|]. intros P HP.
+        destruct (in_dec Nat.eq_dec id P) as [Hi|Hn']; [exact Hi|exfalso].
+        destruct Hst1 as [Hd Hcov]. destruct (Hcov P (pr_co F P Hwf HP)) as (B & HB & HPB).
+        exact (Hd B P HB HP Hn' HPB).
+      * apply HCB. unfold CB. pose proof (pot_le k1 Bs1 Ss1 Ps1 Hc1). rewrite Est1 in *. cbn [cst]. lia.
+      * apply HLOG. exists []. split; [reflexivity|]. cbn [app sats flat_map]. rewrite Est1. cbn [ini app].
+        destruct Hc1 as (B1 & B2 & _). auto.
+    + discriminate Hcst1.
+Qed.
+
+(* ---- the TIGHT account.  The loop never continues from a maximal set: a current set that contains the
+   argument is discarded at once, so [k_compute_next] is only asked to grow sets WITHOUT the argument, a
+   set proved maximal is then a counter-example and the loop returns.  Hence at most one maximal set is
+   ever reached, and the calls are bounded by the number of COMPLETE extensions alone (each set that
+   has been current costs one call, except the grounded start; the final Unsat costs one). *)
+Definition co_bound : nat := length (all_exts CO F) + 1.
+Definition CBt (k : dcomp) (ps : Prog.st) (Ss : list (list nat)) (ps' : Prog.st) : Prop :=
+  calls ps' + length Ss + 1 <= calls ps + cst (k_state k) + co_bound.
+
+Lemma pr_loop_tight fuel : forall k fm in_all missing ps Bs Ss,
+  linv k ps Bs -> cnt k Bs Ss [] -> k_state k <> MNone -> k_state k <> MMaximal ->
+  (k_state k = MIntermediate -> ~ In id (k_cur k)) -> id < length missing ->
+  match pr_loop oracle L fuel af e id k fm in_all missing ps with
+  | Done _ ps' | Abort ps' | Panic ps' => CBt k ps Ss ps'
+  | OutOfFuel ps' => fuel + length Ss < co_bound /\ CBt k ps Ss ps'
+  end.
+Proof.
+  induction fuel as [|f IH]; intros k fm in_all missing ps Bs Ss Hl Hc Hnn Hnm Hni Hlen; cbn [pr_loop].
+  - assert (HSs : length Ss <= length (all_exts CO F)) by (destruct Hc as (A1 & A2 & _); apply sepl_co_le; assumption).
+    unfold out_of_fuel, CBt, co_bound. cbn [Nat.add]. lia.
+  - assert (HSs : length Ss <= length (all_exts CO F)) by (destruct Hc as (A1 & A2 & _); apply sepl_co_le; assumption).
+    unfold bind at 1. pose proof (nof_k_compute_next k ps) as Hnof. pose proof (cle_k_compute_next k ps) as Hcl.
+    destruct (k_compute_next oracle L af e k ps) as [k1 ps1| | |] eqn:E1; cbv beta iota in Hcl, Hnof;
+      try (unfold CBt, co_bound; lia); try (destruct Hnof).
+    destruct (k_compute_next_step k ps Bs Ss [] k1 ps1 Hl Hc ltac:(intros Hx; congruence) E1)
+      as (Bs1 & Ss1 & Ps1 & Hl1 & Hc1 & Hn & Hp & _ & Hcur1 & HPs1).
+    pose proof Hl1 as (Hs1 & Hb1 & Hst1).
+    assert (Hcst1 : cst (k_state k1) = 1).
+    { destruct (k_state k); cbn [next_ok] in Hn; try contradiction; try (destruct Hn as [Hn|Hn]); rewrite Hn; reflexivity. }
+    assert (Hrec : forall k2 fm2 ia2 ms2 ps2 Bs2,
+              linv k2 ps2 Bs2 -> cnt k2 Bs2 Ss1 [] -> k_state k2 <> MNone -> k_state k2 <> MMaximal ->
+              (k_state k2 = MIntermediate -> ~ In id (k_cur k2)) -> id < length ms2 -> k_state k2 <> MInit ->
+              length Ss1 = length Ss + 1 -> calls ps2 <= calls ps1 ->
+              match pr_loop oracle L f af e id k2 fm2 ia2 ms2 ps2 with
+              | Done _ ps' | Abort ps' | Panic ps' => CBt k ps Ss ps'
+              | OutOfFuel ps' => S f + length Ss < co_bound /\ CBt k ps Ss ps'
+              end).
+    { intros k2 fm2 ia2 ms2 ps2 Bs2 A1 A2 A3 A4 A5 A6 A7 A8 A9.
+      pose proof (IH k2 fm2 ia2 ms2 ps2 Bs2 Ss1 A1 A2 A3 A4 A5 A6) as G.
+      assert (Hc2 : cst (k_state k2) = 1) by (destruct (k_state k2); try reflexivity; congruence).
+      unfold CBt in *. rewrite Hc2 in G.
+      destruct (pr_loop oracle L f af e id k2 fm2 ia2 ms2 ps2); try lia. }
+    destruct (k_state k1) eqn:Est1.
+    + (* Maximal: it grew from a set without the argument, the loop returns *)
+      assert (Hki : k_state k = MIntermediate).
+      { destruct (k_state k); cbn [next_ok] in Hn; try contradiction; try reflexivity;
+          try (destruct Hn as [Hn|Hn]; discriminate Hn); discriminate Hn. }
+      rewrite (nth_bools_of _ _ _ Hlen), (Hcur1 eq_refl).
+      rewrite (proj2 (memb_false id (k_cur k)) (Hni Hki)). cbn [negb]. unfold ret, CBt, co_bound. lia.
+    + (* Intermediate *)
+      assert (HP1 : Ps1 = []) by (apply HPs1; discriminate). subst Ps1.
+      assert (HS1 : length Ss1 = length Ss + 1).
+      { unfold pot in Hp. destruct (k_state k); try congruence; lia. }
+      destruct Hst1 as (Hco & Hnd & Hnb & Hd).
+      destruct (memb id (k_cur k1)) eqn:Em.
+      * unfold bind at 1. pose proof (nof_k_discard k1 ps1) as Hnof'. pose proof (cle_k_discard k1 ps1) as Hcl'.
+        destruct (k_discard L af e k1 ps1) as [u ps2| | |] eqn:E2; cbv beta iota in Hcl', Hnof';
+          try (unfold CBt, co_bound; lia); try (destruct Hnof').
+        pose proof (k_discard_step k1 ps1 Bs1 u ps2 Hs1 Hb1 E2) as Hb2.
+        apply (Hrec (k_with k1 (k_cur k1) MJustDiscarded) _ _ _ ps2 (Bs1 ++ [k_cur k1])); cbn [k_with k_state]; try discriminate; try lia.
+        -- unfold linv. cbn [k_with k_sel k_state k_cur]. split; [exact Hs1|]. split; [exact Hb2|].
+           apply dead_app; [exact Hd|]. apply dead_has_id; [apply co_adm, Hco|apply memb_spec, Em].
+        -- destruct Hc1 as (A1 & A2 & A3 & A4 & A5). rewrite Est1 in A5. unfold cnt. cbn [k_with k_state].
+           split; [exact A1|]. split; [exact A2|]. split; [intros P []|]. split; [exact I|].
+           intros S HS'. apply in_or_app. destruct (A5 S HS') as [H'| ->]; [left; exact H'|right; left; reflexivity].
+        -- rewrite length_add_defeated. exact Hlen.
+      * apply (Hrec k1 _ _ _ ps1 Bs1); auto; try (rewrite Est1; discriminate); try lia.
+        -- intros _. apply memb_false, Em.
+        -- rewrite length_add_defeated. exact Hlen.
+    + assert (HP1 : Ps1 = []) by (apply HPs1; discriminate). subst Ps1.
+      assert (HS1 : length Ss1 = length Ss + 1) by (unfold pot in Hp; destruct (k_state k); try congruence; lia).
+      apply (Hrec k1 _ _ _ ps1 Bs1); auto; try (rewrite Est1; discriminate); lia.
+    + unfold ret, CBt, co_bound. lia.
+    + discriminate Hcst1.
 Qed.
 
 End Loop.
@@ -554,7 +764,8 @@ Lemma pr_ds_query_full fuel (s : dsolver) l ps s' ans ps' :
          {| k_cur := []; k_state := MInit; k_sel := zlit (1 + session_n_vars (sess ps1)) |} true None
          (repeat false (1 + match max_argument_id L af with Some m => m | None => 0 end)) ps2
          = Done (k, result, acc_b, ref_b, ext) ps3 /\
-       s' = pushed_state L s af buf (DSkep L acc refused ext) /\ ans = (result, ext)).
+       s' = pushed_state L s af buf (DSkep L acc refused ext) /\ ans = (result, ext) /\
+       ps2 = st_nvars ps1 /\ ps' = st_add ps3 [k_sel k]).
 Proof.
   unfold pr_ds_query. intros E.
   destruct (is_skep L leqb (s_buf L s) l) as [[b|] [X|]].
@@ -562,14 +773,16 @@ Proof.
       exists b, X. auto. }
   all: right; apply bind_Done in E; destruct E as ([af buf] & ps1 & E1 & E2);
     exists af, buf, ps1; (split; [exact E1|]); intros e He; rewrite He in E2;
-    apply bind_Done in E2; destruct E2 as (n & ps2 & E2 & E3); apply n_vars_sess in E2; destruct E2 as [-> Hs2];
+    apply bind_Done in E2; destruct E2 as (n & ps2 & E2 & E3);
+    assert (Hps2 : ps2 = st_nvars ps1) by (unfold n_vars in E2; apply Done_inj in E2; destruct E2 as [_ <-]; reflexivity);
+    apply n_vars_sess in E2; destruct E2 as [-> Hs2];
     apply bind_Done in E3; destruct E3 as (arg_id & ps3 & E3 & E4); apply opt_m_Done in E3; destruct E3 as [Hid ->];
     apply bind_Done in E4; destruct E4 as ([[[[k result] acc_b] ref_b] X'] & ps4 & E4 & E5);
     apply bind_Done in E5; destruct E5 as (acc & ps5 & E5 & E6); apply opt_m_Done in E5; destruct E5 as [_ ->];
     apply bind_Done in E6; destruct E6 as (refused & ps6 & E6 & E7); apply opt_m_Done in E6; destruct E6 as [_ ->];
-    apply bind_Done in E7; destruct E7 as (u & ps7 & E7 & E8);
-    apply ret_Done in E8; destruct E8 as [E8 _]; apply pair_equal_spec in E8; destruct E8 as [<- <-];
-    exists arg_id, ps2, k, result, acc_b, ref_b, X', ps4, acc, refused; auto 6.
+    apply bind_Done in E7; destruct E7 as (u & ps7 & E7 & E8); apply add_clause_Done in E7;
+    apply ret_Done in E8; destruct E8 as [E8 <-]; apply pair_equal_spec in E8; destruct E8 as [<- <-];
+    exists arg_id, ps2, k, result, acc_b, ref_b, X', ps4, acc, refused; auto 8.
 Qed.
 
 Lemma dyn_query_pr_inv' thr fuel (s : dsolver) q cert l ps s' a ps' :
@@ -627,11 +840,15 @@ Lemma pr_search_out fuel (af : fw) e ps1 ps2 l id os :
   match pr_loop oracle L fuel af e id
           {| k_cur := []; k_state := MInit; k_sel := zlit (1 + session_n_vars (sess ps1)) |} true None
           (repeat false (1 + match max_argument_id L af with Some m => m | None => 0 end)) ps2 with
-  | Done (_, result, _, _, ext) _ =>
-      (result = false /\ exists X, ext = Some X /\ pr (af_of af) X /\ NoDup X /\ ~ In id X) \/
-      (result = true /\ ext = None /\ forall P, pr (af_of af) P -> In id P)
-  | OutOfFuel _ => fuel < pr_dyn_bound af
-  | _ => True
+  | Done (_, result, _, _, ext) ps3 =>
+      ((result = false /\ exists X, ext = Some X /\ pr (af_of af) X /\ NoDup X /\ ~ In id X) \/
+       (result = true /\ ext = None /\ forall P, pr (af_of af) P -> In id P)) /\
+      calls ps3 + 1 <= calls ps2 + pr_dyn_bound af /\
+      exists lg, rlog ps3 = lg ++ rlog ps2 /\
+        sepl (sats e lg ++ [grounded (view_of_fw af)]) /\
+        forall S, In S (sats e lg ++ [grounded (view_of_fw af)]) -> co (af_of af) S
+  | OutOfFuel ps3 => fuel < pr_dyn_bound af /\ calls ps3 + 1 <= calls ps2 + pr_dyn_bound af
+  | Abort ps3 | Panic ps3 => calls ps3 + 1 <= calls ps2 + pr_dyn_bound af
   end.
 Proof.
   intros [Ht Hinv Hz Hcv (dv & atk & H1 & H2 & H3 & H4 & H5)] Hsem Hlv Hbd Haf Hid Hs2.
@@ -646,14 +863,58 @@ Proof.
   specialize (G Hwf Hgr ltac:(lia) fuel
                 {| k_cur := []; k_state := MInit; k_sel := zlit (1 + session_n_vars (sess ps1)) |} true None
                 (repeat false (1 + match max_argument_id L af with Some m => m | None => 0 end)) ps2 [] [] []).
-  cbn [k_state pot length Nat.add] in G. rewrite Nat.add_0_r in G. apply G.
-  - unfold linv. cbn [k_sel k_state]. split; [reflexivity|]. split; [|reflexivity].
-    exists []. rewrite app_nil_r. split; [exact Hcls|constructor].
-  - unfold cnt. cbn [k_state sepl]. split; [intros S []|]. split; [exact I|]. split; [intros P []|]. split; [exact I|]. split; reflexivity.
-  - discriminate.
-  - discriminate.
-  - rewrite repeat_length. pose proof (has_lt L af id Hlive) as Hl.
-    unfold max_argument_id, ls_max_id. destruct (slots (ls af)); cbn [length] in *; lia.
+  assert (G' := G (conj eq_refl (conj (ex_intro _ [] (conj (eq_trans (eq_sym (app_nil_r _)) (f_equal (fun x => x ++ []) Hcls) ) (Forall2_nil _))) eq_refl))).
+  clear G.
+  assert (Hcnt : cnt af {| k_cur := []; k_state := MInit; k_sel := zlit (1 + session_n_vars (sess ps1)) |} [] [] []).
+  { unfold cnt. cbn [k_state sepl]. split; [intros S []|]. split; [exact I|]. split; [intros P []|]. split; [exact I|]. split; reflexivity. }
+  specialize (G' Hcnt ltac:(discriminate) ltac:(discriminate)).
+  assert (Hlen : id < length (repeat false (1 + match max_argument_id L af with Some m => m | None => 0 end))).
+  { rewrite repeat_length. pose proof (has_lt L af id Hlive) as Hl.
+    unfold max_argument_id, ls_max_id. destruct (slots (ls af)); cbn [length] in *; lia. }
+  specialize (G' Hlen). unfold CB, LOG, pot, cst, ini in G'. cbn [k_state length Nat.add] in G'.
+  destruct (pr_loop oracle L fuel af e id _ true None _ ps2) as [[[[[k result] acc_b] ref_b] ext] ps3|ps3|ps3|ps3].
+  - destruct G' as (G1 & G2 & lg & G3 & G4 & G5). split; [exact G1|]. split; [lia|]. exists lg.
+    rewrite app_nil_r in G4, G5. auto.
+  - lia.
+  - lia.
+  - destruct G' as [G1 G2]. split; lia.
+Qed.
+
+(* the tight account of a search: at most one call per complete extension *)
+Lemma pr_search_tight fuel (af : fw) e ps1 ps2 l id os :
+  ready L af e ps1 -> e_sem e = DPR ->
+  (forall x, live_var e x -> x <= session_n_vars (sess ps1)) ->
+  bounded (cls ps1) (session_n_vars (sess ps1)) ->
+  af = run_ops fresh os -> get_argument af l = Some id -> sess ps2 = sess ps1 ->
+  match pr_loop oracle L fuel af e id
+          {| k_cur := []; k_state := MInit; k_sel := zlit (1 + session_n_vars (sess ps1)) |} true None
+          (repeat false (1 + match max_argument_id L af with Some m => m | None => 0 end)) ps2 with
+  | Done _ ps3 | Abort ps3 | Panic ps3 => calls ps3 <= calls ps2 + length (all_exts CO (af_of af))
+  | OutOfFuel ps3 => fuel <= length (all_exts CO (af_of af)) /\ calls ps3 <= calls ps2 + length (all_exts CO (af_of af))
+  end.
+Proof.
+  intros [Ht Hinv Hz Hcv (dv & atk & H1 & H2 & H3 & H4 & H5)] Hsem Hlv Hbd Haf Hid Hs2.
+  assert (Hcls : cls ps2 = cls ps1) by (unfold cls; now rewrite Hs2).
+  assert (Hwf : wf (af_of af)) by (rewrite Haf; exact (af_of_wf L leqb leqb_spec _ (fresh_reachable_g os))).
+  assert (Hgr : co (af_of af) (grounded (view_of_fw af)) /\ NoDup (grounded (view_of_fw af))).
+  { rewrite Haf. destruct (grounded_store L leqb leqb_spec _ (fresh_reachable_g os)) as [[Hco _] Hnd]. split; assumption. }
+  assert (Hlive : has af id = true) by (eapply (get_argument_live L leqb leqb_spec); eassumption).
+  pose proof (pr_loop_tight af e (cls ps1) (1 + session_n_vars (sess ps1)) id dv atk Ht Hinv Hz Hcv H2 H3 H4 H5 Hsem) as G.
+  specialize (G ltac:(intros x Hx; specialize (Hlv x Hx); lia)).
+  specialize (G ltac:(replace (1 + session_n_vars (sess ps1) - 1) with (session_n_vars (sess ps1)) by lia; exact Hbd)).
+  specialize (G Hwf Hgr ltac:(lia) fuel
+                {| k_cur := []; k_state := MInit; k_sel := zlit (1 + session_n_vars (sess ps1)) |} true None
+                (repeat false (1 + match max_argument_id L af with Some m => m | None => 0 end)) ps2 [] []).
+  assert (G' := G (conj eq_refl (conj (ex_intro _ [] (conj (eq_trans (eq_sym (app_nil_r _)) (f_equal (fun x => x ++ []) Hcls) ) (Forall2_nil _))) eq_refl))).
+  clear G.
+  assert (Hcnt : cnt af {| k_cur := []; k_state := MInit; k_sel := zlit (1 + session_n_vars (sess ps1)) |} [] [] []).
+  { unfold cnt. cbn [k_state sepl]. split; [intros S []|]. split; [exact I|]. split; [intros P []|]. split; [exact I|]. split; reflexivity. }
+  specialize (G' Hcnt ltac:(discriminate) ltac:(discriminate) ltac:(discriminate)).
+  assert (Hlen : id < length (repeat false (1 + match max_argument_id L af with Some m => m | None => 0 end))).
+  { rewrite repeat_length. pose proof (has_lt L af id Hlive) as Hl.
+    unfold max_argument_id, ls_max_id. destruct (slots (ls af)); cbn [length] in *; lia. }
+  specialize (G' Hlen). unfold CBt, co_bound, cst in G'. cbn [k_state length Nat.add] in G'.
+  destruct (pr_loop oracle L fuel af e id _ true None _ ps2); lia.
 Qed.
 
 Lemma pr_search_correct fuel (af : fw) e ps1 ps2 l id k result acc_b ref_b ext ps3 os :
@@ -669,7 +930,7 @@ Lemma pr_search_correct fuel (af : fw) e ps1 ps2 l id k result acc_b ref_b ext p
   (result = true /\ ext = None /\ forall P, pr (af_of af) P -> In id P).
 Proof.
   intros A1 A2 A3 A4 A5 A6 A7 E.
-  pose proof (pr_search_out fuel af e ps1 ps2 l id os A1 A2 A3 A4 A5 A6 A7) as G. rewrite E in G. exact G.
+  pose proof (pr_search_out fuel af e ps1 ps2 l id os A1 A2 A3 A4 A5 A6 A7) as G. rewrite E in G. exact (proj1 G).
 Qed.
 
 (* ---- cached entries of the preferred solver: the stored set is a preferred extension *)
@@ -762,7 +1023,7 @@ Proof.
     + split; [discriminate|]. intros Hsk. destruct (Hsk X K1) as (a & [<-|[]] & Ha). contradiction.
     + auto 7.
   - destruct (query_ready_pr thr s ps os af buf ps1 Hv Hue) as (e & He & Hrd & Hsem & Hlv & Hbd & Haf & _).
-    destruct (Hrest e He) as (id' & ps2 & k & result & acc_b & ref_b & ext & ps3 & acc & refused & Hid & Hs2 & Hloop & _ & ->).
+    destruct (Hrest e He) as (id' & ps2 & k & result & acc_b & ref_b & ext & ps3 & acc & refused & Hid & Hs2 & Hloop & _ & -> & _).
     assert (id' = id) by (rewrite Haf in Hid; congruence). subst id'.
     destruct (pr_search_correct fuel af e ps1 ps2 l id k result acc_b ref_b ext ps3 os Hrd Hsem Hlv Hbd Haf Hid Hs2 Hloop)
       as [(-> & X & -> & Hp & Hnd & Hn)|(-> & -> & Hall)]; rewrite Haf in *; split; cbn [fst snd].
@@ -804,7 +1065,7 @@ Proof.
     assert (id' = id) by (rewrite Haf in Hid; congruence); subst id';
     pose proof (pr_search_out fuel af e ps1 ps2 l id os Hrd Hsem Hlv Hbd Haf Hid Hs2) as G;
     apply bind_OOF in E; destruct E as [E|([[[[k result] acc_b] ref_b] X'] & ps4 & E4 & E)];
-    [rewrite E in G; rewrite <- Haf; exact G|];
+    [rewrite E in G; rewrite <- Haf; exact (proj1 G)|];
     exfalso; refine (nof_not_OOF _ _ _ _ E);
     (apply nof_bind; [apply nof_opt_m|]); intros acc; (apply nof_bind; [apply nof_opt_m|]); intros refused;
     (apply nof_bind; [apply nof_add_clause|]); intros _; apply nof_ret.
